@@ -395,7 +395,7 @@ fn probe_every_interleaving_of_three_files() {
     use sha2::{Digest, Sha256};
     // scripts: (file, op)  op: 0 = start, 1.. = append piece #op-1, 255 = end
     let pieces: [&[&[u8]]; 3] = [&[b"abc", b"", b"defgh"], &[b"WXYZ"], &[]];
-    let names = ["file_a", "dir\\win_b", "file_c"]; // (a backslash is an ordinary character of a name)
+    let names = ["fi\0le_a", "dir\\win_b", "file_c"]; // (a backslash is an ordinary character of a name)
     let lens: Vec<usize> = pieces.iter().map(|p| p.len() + 2).collect();
     fn rec(progress: &mut Vec<usize>, lens: &[usize], cur: &mut Vec<usize>, out: &mut Vec<Vec<usize>>) {
         if (0..lens.len()).all(|f| progress[f] == lens[f]) { out.push(cur.clone()); return; }
